@@ -497,7 +497,7 @@ def run(ctx):
     nreplay = len(events)
     tags = ['ega64k/replay'] * nreplay
     # 3. code -> spec
-    per_mode = ctx.pick(110, 1500)
+    per_mode = ctx.pick(110, 800)
     traces = 0
     for adapter, kw, modes in gfx.ADAPTERS:
         ru = Runner(ctx, adapter, events)
